@@ -288,6 +288,7 @@ macro_rules! holds {
                 None,
             );
         }
-        ok__ || $c.panic_only
+        let r__: bool = ok__ || $c.panic_only;
+        r__
     }};
 }
